@@ -566,8 +566,168 @@ def gen_rh(rng, tier):
         yield {"kind": "rh", "events": ev}
 
 
+# ------------------- client stack under arbitrary reads (socket-like medium)
+
+def _make_response(resp):
+    from breezy.bzr.smart import request
+    cls = request.SuccessfulSmartServerResponse if resp["ok"] else request.FailedSmartServerResponse
+    if resp["kind"] == "none":
+        return cls(tuple(resp["args"]))
+    if resp["kind"] == "body":
+        return cls(tuple(resp["args"]), resp["body"])
+    items = list(resp["chunks"])
+    if resp["err"] is not None:
+        items.append(request.FailedSmartServerResponse(tuple(resp["err"])))
+    return request.SuccessfulSmartServerResponse(tuple(resp["args"]), body_stream=iter(items))
+
+
+def real_encode_response(version, resp):
+    """The bytes the real server side writes for a response."""
+    P = _P()
+    out = []
+    if version == 3:
+        P.ProtocolThreeResponder(out.append).send_response(_make_response(resp))
+    else:
+        P.SmartServerRequestProtocolTwo(None, out.append)._send_response(_make_response(resp))
+    return b"".join(out)
+
+
+def impl_cdec(inp):
+    """Decode a real response with the real client classes over a medium whose reads return the given
+    segments whatever count was asked for (osutils.read_bytes_from_socket returns what has arrived)."""
+    P = _P()
+    from breezy.bzr.smart import medium, message
+    from dromedary import errors as terrors
+    resp, v = inp["resp"], inp["version"]
+    wire = real_encode_response(v, resp)
+    segs = [x for x in cut(inp["lens"], wire) if x]
+
+    class SegMedium(medium.SmartClientStreamMedium):
+        def _accept_bytes(self, b):
+            pass
+
+        def _flush(self):
+            pass
+
+        def _read_bytes(self, count):
+            return segs.pop(0) if segs else b""
+
+    req = SegMedium("verif://").get_request()
+    req.finished_writing()
+    if v == 3:
+        handler = message.ConventionalResponseHandler()
+        d = P.ProtocolThreeDecoder(handler, expect_version_marker=True)
+        handler.setProtoAndMediumRequest(d, req)
+    else:
+        handler = P.SmartClientRequestProtocolTwo(req)
+        handler._last_verb = b"verif.echo"
+    res = {"ok": True, "chunks": [], "err": None, "body": None}
+    expect_body = resp["kind"] != "none"
+    try:
+        try:
+            res["args"] = list(handler.read_response_tuple(expect_body=expect_body))
+        except terrors.ErrorFromSmartServer as e:
+            res["args"], res["ok"] = list(e.error_tuple), False
+            expect_body = False
+        if expect_body and resp["kind"] == "body":
+            res["body"] = handler.read_body_bytes()
+        elif expect_body:
+            try:
+                for c in handler.read_streamed_body():
+                    if isinstance(c, bytes):
+                        res["chunks"].append(c)
+                    else:
+                        res["err"] = list(c.args)
+            except terrors.ErrorFromSmartServer as e:
+                res["err"] = list(e.error_tuple)
+    except P.SmartMessageHandlerError as e:
+        return [wire, Err(type(e.exc_value).__name__)]
+    except (terrors.SmartProtocolError, ConnectionResetError) as e:
+        return [wire, Err(type(e).__name__)]
+    if v == 3:
+        fin = d.state_accept == d._state_accept_reading_unused
+        parts = ([res["body"]] if res["body"] is not None else res["chunks"])
+        return [wire, [fin, handler.status, bencode(list(res["args"])), parts,
+                       None if res["err"] is None else bencode(list(res["err"]))]]
+    return [wire, [res["ok"], res["args"], res["body"], res["chunks"], res["err"]]]
+
+
+def cdec_model_term(inp):
+    if inp["version"] != 3:
+        return None
+    import breezy
+    resp = inp["resp"]
+    hdr = coq_bytes(bencode({b"Software version": breezy.__version__.encode("utf-8")}))
+    if resp["kind"] == "none":
+        body = "RNone"
+    elif resp["kind"] == "body":
+        body = f"(RBody {coq_bytes(resp['body'])})"
+    else:
+        body = f"(RStream {coq_bytes_list(resp['chunks'])} {coq_option(resp['err'], lambda e: coq_bytes(bencode(list(e))))})"
+    return (f"run_cdec3 {hdr} {coq_bool(resp['ok'])} {coq_bytes(bencode(list(resp['args'])))} {body} "
+            f"{coq_lens(inp['lens'])}")
+
+
+def oracle_cdec(inp, obs):
+    """Whatever the reads, the client decodes the arguments, body / every chunk in order, and the error."""
+    resp = inp["resp"]
+    got = obs[1]
+    if isinstance(got, Err):
+        return f"client failed to decode {resp!r} under reads {inp['lens']!r}: {got}"
+    if inp["version"] == 3:
+        want_parts = [resp["body"]] if resp["kind"] == "body" else list(resp.get("chunks", []))
+        if not resp["ok"]:
+            want_parts = []                      # the error response is raised before any body is read
+        want = [True, b"S" if resp["ok"] else b"E", bencode(list(resp["args"])), want_parts,
+                None if resp.get("err") is None else bencode(list(resp["err"]))]
+        if resp["ok"] and list(got) != want:
+            return f"response {resp!r} read as {inp['lens']!r} decoded to {got!r}, expected {want!r}"
+        if not resp["ok"] and list(got[:3]) != want[:3]:
+            return f"failed response {resp!r} decoded to {got!r}"
+        return None
+    want = [resp["ok"], list(resp["args"]), resp.get("body") if resp["ok"] else None,
+            list(resp.get("chunks", [])) if resp["ok"] else [], resp.get("err") if resp["ok"] else None]
+    if list(got) != want:
+        return f"v2 response {resp!r} read as {inp['lens']!r} decoded to {got!r}, expected {want!r}"
+    return None
+
+
+def gen_cdec(rng, tier):
+    """Responses (biased to streams that fail after >= 1 chunk) x read segmentations, including the
+    whole response in one read and reads that coalesce the last chunk(s) with the error status."""
+    n = 120 if tier == "quick" else 3000
+    directed = [([b"a"], [b"error", b"x"]), ([b"a", b"bc", b""], [b"error"]), ([b"abc"] * 4, None), ([], [b"error", b"e"])]
+    for v in (3, 2):
+        for chunks, err in directed:
+            resp = {"ok": True, "args": [b"ok"], "kind": "stream", "chunks": chunks, "err": err}
+            total = len(real_encode_response(v, resp))
+            for lens in ([], [total // 2], [1] * total, [total - 3], [total - 12]):
+                yield {"kind": "cdec", "version": v, "resp": resp, "lens": lens}
+    for _ in range(n):
+        v = rng.choice([3, 3, 2])
+        resp = {"ok": rng.random() < 0.9, "args": [b"ok"] + gen_args(rng), "kind": "none"}
+        r = rng.random()
+        if resp["ok"] and r < 0.2:
+            resp.update(kind="body", body=gen_body(rng, 30))
+        elif resp["ok"] and r < 0.95:
+            chunks = [gen_body(rng, 12) for _ in range(rng.choice([1, 1, 2, 3, 5]))]
+            err = [b"error", b"boom"] if rng.random() < 0.7 else None
+            resp.update(kind="stream", chunks=chunks, err=err)
+        total = len(real_encode_response(v, resp))
+        mode = rng.random()
+        if mode < 0.3:
+            lens = []
+        elif mode < 0.5:                         # everything but the last few bytes, then the rest
+            lens = [max(0, total - rng.randint(1, 40))]
+        else:
+            lens = gen_lens(rng, total)
+        yield {"kind": "cdec", "version": v, "resp": resp, "lens": lens}
+
+
 def impl_A(inp):
     k = inp["kind"]
+    if k == "cdec":
+        return impl_cdec(inp)
     if k in ("big", "big_enc", "big_rl"):
         return impl_big(inp)
     if k == "rh":
@@ -599,6 +759,8 @@ def impl_A(inp):
 
 def model_term_A(inp):
     k = inp["kind"]
+    if k == "cdec":
+        return cdec_model_term(inp)
     if k in ("big", "big_enc", "big_rl"):
         return big_model_term(inp)
     if k == "rh":
